@@ -31,6 +31,7 @@ KEY_F14 = 'C05:per-channel:0bit:alive-over-total'
 KEY_MPIC_DW = 'C05:mpic_latency:depthwise:per-channel-0bit'
 KEY_INCOMP = 'C05:effective-in-features:mps-module-in-input-component'
 KEY_REUSE = 'C05:layer-reuse:per-invocation-shape'
+KEY_TIE = 'C05:coefficient-tie:sampled-coefficients-not-one-hot'
 LT_NAME = {'Conv1d': 'conv1d', 'Conv2d': 'conv2d', 'Linear': 'linear'}
 
 
@@ -369,7 +370,22 @@ def _run_case(case):
                                     'layer %s: shares x shown output width give %s alive output features, %d are alive'
                                     % (name, eff_out, ex[ii]['alive_out'])))
 
+        # are the sampled coefficients one-hot (per quantizer / per channel)? With exactly tied top
+        # coefficients the selection of summary()/export() is the first maximum (torch.argmax)
+        def _one_hot(t):
+            t = t.detach()
+            cols = t.unsqueeze(1) if t.dim() == 1 else t
+            return all(sorted(cols[:, c].tolist()) == [0.0] * (cols.shape[0] - 1) + [1.0] for c in range(cols.shape[1]))
+        not_hot = []
+        for mi_, ii, mod, node, name in layers:
+            for role in ('in', 'w', 'out'):
+                if not _one_hot(getattr(mod, role + '_mps_quantizer').theta_alpha):
+                    not_hot.append('%s.%s' % (name, role))
+        res['not_one_hot'] = not_hot
+
         def cost_key(ii, spec):
+            if not_hot:
+                return KEY_TIE if cfg.get('ties') else 'C05:sampled-coefficients-not-one-hot:%s' % case['family']
             if ii in in_key:
                 return in_key[ii]
             if pc0 and ex[ii]['pruned']:
@@ -428,6 +444,11 @@ def _run_case(case):
                 res['fail'].append((KEY_REUSE if res['reuse'] else 'C05:exported-numel:%s' % case['family'],
                                     'cost (%s, %s) but the exported layers hold %d weight bits / %d bit-ops'
                                     % (totals['params_bit'], totals['ops_bit'], pbx, obx)))
+        if res.get('not_one_hot'):
+            # one root cause: name it once (the sampled coefficients are not the one-hot of the selection)
+            tk = KEY_TIE if cfg.get('ties') else 'C05:sampled-coefficients-not-one-hot:%s' % case['family']
+            res['fail'] = [(tk, '%s [sampled coefficients not one-hot: %s]' % (msg, ','.join(res['not_one_hot'][:4])))
+                           for _, msg in res['fail']]
     except Exception as ex_:
         import traceback
         res['fail'].append(('C05:exception:%s' % case['family'], '%s: %s' % (type(ex_).__name__, str(ex_)[:200])))
@@ -459,6 +480,8 @@ def _gen_cases(rng, n):
         cfg = mc.make_cfg(rng, pc=fam != 'pl', zero=fam == 'pc0', ne16=ne16)
         if probe_in:
             cfg['prune_p'] = 0.5
+        if k % 3 == 2 and not probe_in:
+            cfg['ties'] = 1      # tie stream: exactly equal top coefficients (selection = first maximum)
         case = {'kind': 'cost', 'family': fam, 'desc': desc, 'cfg': cfg, 'mode': 'hard' if rng.random() < 0.3 else 'eval'}
         case['ne16'] = int(ne16 and _ne16_ok(desc, cfg))
         cases.append(case)
@@ -599,7 +622,8 @@ def run(chk):
                 'random integer grids (layer type x depthwise x sizes x precisions); (c) random nets of the C02 grammar '
                 '(every 9th a Conv1d net, every 6th a net in which one conv module is invoked at two resolutions on tensors of '
                 'one producer) x {per-layer any tuples, per-channel, per-channel with 0-bit and pruned channels} '
-                'x eval mode / training with hard sampling, widths powers of two in per-channel search so that shares '
+                'x eval mode / training with hard sampling; every 3rd net draws its coefficients from the tie stream (top-2 / top-3 / '
+                'all-equal / 0-bit-vs-maximum exact ties; reference: first maximum),  widths powers of two in per-channel search so that shares '
                 'are dyadic and every float32 cost below 2^24 is an exact integer; ne16 on nets it applies to (8-bit '
                 'activations, 1x1/3x3, depthwise 3x3); (d) producer pruned channel by channel in 6 producer->consumer '
                 'families. non-trivial = a quantizer with >= 2 candidates or a pruned channel; distinct = distinct '
@@ -658,7 +682,8 @@ def run(chk):
                   sample={'prog': case['desc']['prog'], 'family': case['family'], 'wp': cfg['wp'], 'ap': cfg['ap'],
                           'mode': case['mode'], 'cost': r.get('cost')})
         for hk in ('mode:' + case['mode'], 'dim:%d' % case['desc']['dim'], 'ne16:%d' % case['ne16'],
-                   'pruned_layers>0:%d' % int(r.get('pruned_layers', 0) > 0), 'layer-reuse:%d' % int(bool(r.get('reuse')))):
+                   'pruned_layers>0:%d' % int(r.get('pruned_layers', 0) > 0), 'layer-reuse:%d' % int(bool(r.get('reuse'))),
+                   'ties:%d' % int(bool(cfg.get('ties')))):
             chk.hist[hk] = chk.hist.get(hk, 0) + 1
         if r.get('big'):
             chk.hist['skipped:cost>=2^24'] = chk.hist.get('skipped:cost>=2^24', 0) + 1
